@@ -42,6 +42,7 @@ cpp2coq.SCHEMA["fifo_cache"] = dict(
     module="GenFifo", requires=["Capp.Base", "Capp.Rr", "Capp.ListCache", "Capp.RrLit", "Capp.LruLit", "Capp.FifoLit"],
     inst=INST,
     state="fifol", state_args="K V", elem="fcell", elem_args="K V", cap="fl_cap", elem_label="list node",
+    ctor=True, cells="fl_cells", elem_default="{| fc_keyed := None; fc_val := None |}",
     fields=[("fl_cap", None, "cap"), ("fl_list", "m_fifo_list", "list"), ("fl_cells", None, "vec"),
             ("fl_index", "m_keyed_elements", "umap"), ("fl_used", "m_used_size", "nat")],
     elem_fields=[("fc_keyed", "m_keyed_position", "optmit"), ("fc_val", "m_value", "optval")],
